@@ -1403,6 +1403,9 @@ class CircuitTemplate(AbstractBaseTemplate):
         # extract target nodes from network
         *node_id, op, var = target.split('/')
         target_nodes = self.get_nodes(node_id, var_identifier=(op, var))
+        if not target_nodes:
+            warn(PyRatesWarning(f'Input target {target} was not found: variable {var} does not exist on operator {op} '
+                                f'of node {"/".join(node_id)}. The input will be ignored.'))
 
         # create input node
         node_key, op_key, var_key, in_node = create_input_node(var, inp, adaptive, sim_time, vectorized_net)
